@@ -75,6 +75,9 @@ func replayOne(rf *vstat.ReplayFile) string {
 	if rf.Part == "latency" {
 		return replayLatency(rf)
 	}
+	if rf.Part == "latency-irregular" {
+		return replayLatIrregular(rf)
+	}
 	if rf.Part == "race" {
 		return replayRace(rf)
 	}
